@@ -59,8 +59,8 @@ func (s *Stmt) text(ind string, sb *strings.Builder) {
 			later = append(later, "Use("+names(l)+")")
 		}
 		fmt.Fprintf(sb, "%sRoute#%d(%s %q main=%s preUse=[%s] variadic=[%s] later=%v)\n", ind, s.Style, strings.Join(s.Methods, ","), s.Path, s.Main.Name, names(s.PreUse), names(s.Variadic), later)
-	case "group":
-		fmt.Fprintf(sb, "%sGroup(%q, mw=[%s]) {\n", ind, s.Prefix, names(s.Hs))
+	case "group", "controller", "resource":
+		fmt.Fprintf(sb, "%s%s(%q, mw=[%s]) {\n", ind, map[string]string{"group": "Group", "controller": "Controller", "resource": "Resource"}[s.Kind], s.Prefix, names(s.Hs))
 		for _, b := range s.Body {
 			b.text(ind+"  ", sb)
 		}
@@ -134,6 +134,11 @@ func (p *Program) Apply(w *World) *rux.Router {
 			case "group":
 				body := s.Body
 				r.Group(s.Prefix, func() { run(body) }, w.funcs(s.Hs, s.Spare)...)
+			case "controller":
+				body := s.Body
+				r.Controller(s.Prefix, ctl(func() { run(body) }), w.funcs(s.Hs, s.Spare)...)
+			case "resource":
+				r.Resource(s.Prefix, &Res{w: w, index: s.Body[0].Main, show: s.Body[1].Main, del: s.Body[2].Main}, w.funcs(s.Hs, s.Spare)...)
 			case "route":
 				main := w.Handler(s.Main)
 				switch s.Style {
@@ -172,9 +177,24 @@ func (p *Program) Apply(w *World) *rux.Router {
 	return r
 }
 
+// ctl is a ControllerFace whose AddRoutes runs a statement list.
+type ctl func()
+
+func (c ctl) AddRoutes(*rux.Router) { c() }
+
+// Res is the controller type used by "resource" statements: Index, Show and Delete are implemented.
+type Res struct {
+	w                *World
+	index, show, del *Script
+}
+
+func (c *Res) Index(ctx *rux.Context)  { c.w.Handler(c.index)(ctx) }
+func (c *Res) Show(ctx *rux.Context)   { c.w.Handler(c.show)(ctx) }
+func (c *Res) Delete(ctx *rux.Context) { c.w.Handler(c.del)(ctx) }
+
 // MRoute is a route of the program model.
 type MRoute struct {
-	Full    string    // full normalised path
+	Full    string // full normalised path
 	Methods []string
 	Chain   []*Script // enclosing groups' middleware (outer -> inner, as in effect at registration) ++ route middleware
 	Main    *Script
@@ -221,8 +241,12 @@ func (p *Program) Model() *PModel {
 				pm.NotFound = s.Hs
 			case "notallowed":
 				pm.NotAllowed = s.Hs
-			case "group":
-				child := scope{prefix: cur.prefix + model.Normalize(s.Prefix, strict), mws: cat(cur.mws, s.Hs...)}
+			case "group", "controller", "resource":
+				pfx := s.Prefix
+				if s.Kind == "resource" {
+					pfx += "res" // Resource concatenates base path and lower-cased type name
+				}
+				child := scope{prefix: cur.prefix + model.Normalize(pfx, strict), mws: cat(cur.mws, s.Hs...)}
 				run(s.Body, child, depth+1)
 			case "route":
 				full := model.Normalize(s.Path, strict)
@@ -388,15 +412,16 @@ func GenScript(t *rapid.T, w *World, prefix string, cfg ScriptCfg) *Script {
 
 // ProgCfg sizes the program generator.
 type ProgCfg struct {
-	MaxDepth   int
-	MaxStmts   int
-	MaxMw      int  // middleware per Use / Group / route
-	LongChains bool // sometimes give a route 20-40 middleware
-	Fallbacks  bool // NotFound / NotAllowed statements
-	Dynamic    bool // routes with {id}
-	EmptyPaths bool // "" and "/" route paths (non-strict only)
-	AnyRoutes  bool
-	Script     ScriptCfg
+	MaxDepth    int
+	MaxStmts    int
+	MaxMw       int  // middleware per Use / Group / route
+	LongChains  bool // sometimes give a route 20-40 middleware
+	Fallbacks   bool // NotFound / NotAllowed statements
+	Dynamic     bool // routes with {id}
+	EmptyPaths  bool // "" and "/" route paths (non-strict only)
+	AnyRoutes   bool
+	Controllers bool // Controller and Resource registrations
+	Script      ScriptCfg
 }
 
 type progGen struct {
@@ -501,6 +526,30 @@ func (g *progGen) body(prefix string, nmw int, depth int) []*Stmt {
 				hs = nil
 			}
 			s := &Stmt{Kind: "group", Prefix: written, Hs: hs, Spare: rapid.IntRange(0, 3).Draw(t, "spare")}
+			if g.cfg.Controllers {
+				switch rapid.IntRange(0, 7).Draw(t, "groupKind") {
+				case 0, 1:
+					s.Kind = "controller"
+				case 2:
+					s.Kind = "resource"
+				}
+			}
+			if s.Kind == "resource" {
+				// Resource(base, controller): base must end in '/', the type name "res" is appended
+				s.Prefix = written + "/"
+				full := model.Normalize(prefix+"/"+seg+"/res", g.opts.Strict)
+				if g.used["GET"+full] || g.used["GET"+full+"/{id}"] || g.used["DELETE"+full+"/{id}"] || g.opts.Strict {
+					continue
+				}
+				g.used["GET"+full], g.used["GET"+full+"/{id}"], g.used["DELETE"+full+"/{id}"] = true, true, true
+				s.Body = []*Stmt{
+					{Kind: "route", Methods: []string{"GET"}, Path: "/", Main: GenScript(t, g.w, "index", g.cfg.Script)},
+					{Kind: "route", Methods: []string{"GET"}, Path: "{id}/", Main: GenScript(t, g.w, "show", g.cfg.Script)},
+					{Kind: "route", Methods: []string{"DELETE"}, Path: "{id}/", Main: GenScript(t, g.w, "delete", g.cfg.Script)},
+				}
+				out = append(out, s)
+				continue
+			}
 			s.Body = g.body(prefix+"/"+seg, nmw+len(hs), depth+1)
 			out = append(out, s)
 		default: // fallbacks
